@@ -139,6 +139,8 @@ func runC08(c *Ctx) {
 		c.Unresolved("C08-R3", "ScopedKeyManager.loadAccountInfo")
 	}
 	checkDryRun(c, "C08-R3")
+	checkLoaderCopies(c, "C08-R3")
+	checkRenameUpdatesMirror(c, "C08-R2")
 
 	// ---------- R4 ----------
 	checkRowRewrites(c, "C08-R4")
